@@ -664,6 +664,7 @@ package app
 //@   requires notmaster: node != nil ==> node.host != master
 //@   requires vals_nonnil [safety]: node != nil && clusterState[node.host] != nil
 //@   ensures C10.cascade_frame [C10,C16]: repairFrame(node) && e_ResetSlaveAll == old(e_ResetSlaveAll)
+//@   assert_at performChangeMaster#2 C16.candidate_own_set [C16]: candidateState != nil && textOf(candidateGTIDs) == (candidateState.IsMaster ? candidateState.MasterState.ExecutedGtidSet : candidateState.SlaveState.ExecutedGtidSet)
 //@   assert_at performChangeMaster#2 C16.move_only_when_contained [C16,C10]: sup(candidateGTIDs, myGTIDs) && !resultof("IsSplitBrained", 1) && callarg0 == host && callarg1 == upstreamCandidate && upstreamCandidate != upstreamMaster && resultof("GetReplicaStatus", 1, 1) == nil && textOf(myGTIDs) == resultof("GetExecutedGtidSet", 1)
 //@   assert_at performChangeMaster#1 C16.blind_repoint [C16,C10]: state.SlaveState == nil && callarg0 == host && callarg1 == cnc.StreamFrom
 //@   assert_at writeEmergeFile#1 C16.cascade_split [C16]: resultof("IsSplitBrained", 1) && !resultof("IsSlaveAhead", 1)
